@@ -424,4 +424,54 @@ theorem uniqueNotRecheckedAtCommit_witness :
         [.tick, .begin "s1", .begin "s2", .exec "s1" tdef, .exec "s2" tdef, .commit "s1", .commit "s2"]).1.db.rows) = false := by
   decide
 
+/-! the code after `fix: the name of a table a transaction creates joins its write set` -/
+
+/-- two open transactions create the same name: the second committer is refused, one live relation of that name -/
+theorem commitChecksInsertedKeysOnly_second_creator_refused :
+    (run { commitChecksInsertedKeysOnly := true }
+      [.tick, .begin "s1", .begin "s2", .exec "s1" tdef, .exec "s2" tdef, .commit "s1", .commit "s2"]).2.getLast?
+      = some (.refused .constraint) ∧
+    namesOk (view { commitChecksInsertedKeysOnly := true }
+      ((run { commitChecksInsertedKeysOnly := true }
+        [.tick, .begin "s1", .begin "s2", .exec "s1" tdef, .exec "s2" tdef, .commit "s1", .commit "s2"]).1.db.freshSnap
+          { commitChecksInsertedKeysOnly := true })
+      (run { commitChecksInsertedKeysOnly := true }
+        [.tick, .begin "s1", .begin "s2", .exec "s1" tdef, .exec "s2" tdef, .commit "s1", .commit "s2"]).1.db.rows) = true := by
+  decide
+
+/-- … but the name stays in the write set when the table is dropped again in the same transaction: its commit is
+    refused although the committed catalog would hold the name once (the specification commits) -/
+theorem commitChecksInsertedKeysOnly_witness :
+    (run { commitChecksInsertedKeysOnly := true }
+      [.tick, .begin "s1", .begin "s2", .exec "s1" tdef, .exec "s1" (.dropTable "t"), .exec "s2" tdef, .commit "s2",
+       .commit "s1"]).2.getLast? = some (.refused .constraint) ∧
+    (Spec.run
+      [.tick, .begin "s1", .begin "s2", .exec "s1" tdef, .exec "s1" (.dropTable "t"), .exec "s2" tdef, .commit "s2",
+       .commit "s1"]).2.getLast? = some .ok := by
+  decide
+
+/-! the code after `fix: CREATE TABLE is refused while a transaction the creator does not see holds the name` -/
+
+/-- two open transactions create the same name: the second CREATE is refused with a conflict when it runs (the
+    specification lets it run and refuses the second COMMIT); the first creator's table is the one live relation -/
+theorem createRefusedWhileNameHeld_witness :
+    (run { createRefusedWhileNameHeld := true, commitChecksInsertedKeysOnly := true }
+      [.tick, .begin "s1", .begin "s2", .exec "s1" tdef, .exec "s2" tdef]).2.getLast? = some (.stmt (.err .conflict)) ∧
+    (Spec.run [.tick, .begin "s1", .begin "s2", .exec "s1" tdef, .exec "s2" tdef]).2.getLast?
+      ≠ some (.stmt (.err .conflict)) ∧
+    namesOk (view { createRefusedWhileNameHeld := true, commitChecksInsertedKeysOnly := true }
+      ((run { createRefusedWhileNameHeld := true, commitChecksInsertedKeysOnly := true }
+        [.tick, .begin "s1", .begin "s2", .exec "s1" tdef, .exec "s2" tdef, .commit "s1", .commit "s2"]).1.db.freshSnap
+          { createRefusedWhileNameHeld := true, commitChecksInsertedKeysOnly := true })
+      (run { createRefusedWhileNameHeld := true, commitChecksInsertedKeysOnly := true }
+        [.tick, .begin "s1", .begin "s2", .exec "s1" tdef, .exec "s2" tdef, .commit "s1", .commit "s2"]).1.db.rows) = true := by
+  decide
+
+/-- … also when the holder then rolls back: the refused creator has to try again -/
+theorem createRefusedWhileNameHeld_holder_rolls_back :
+    (run { createRefusedWhileNameHeld := true, commitChecksInsertedKeysOnly := true }
+      [.tick, .begin "s1", .begin "s2", .exec "s1" tdef, .exec "s2" tdef, .rollback "s1", .exec "s2" tdef]).2.drop 4
+      = [.stmt (.err .conflict), .ok, (Spec.run [.tick, .begin "s2", .exec "s2" tdef]).2.getLast?.getD .none] := by
+  decide
+
 end AxVerif.Ddl.C15
